@@ -73,13 +73,13 @@ def run(tier, v):
     thorough = tier == "thorough"
     states = trans = 0
     # 1. design level
-    cfgs = ["Schedule_exh.cfg"] + (["Schedule_nested.cfg", "Schedule_exh3.cfg"] if thorough else [])
+    cfgs = (["Schedule_exh_flat.cfg", "Schedule_nested.cfg", "Schedule_exh3.cfg"] if thorough else ["Schedule_exh.cfg"])
     for cfg in cfgs:
         r = vlib.tlc("ScheduleMC", cfg, deadlock=False, timeout=3000, heap="24g", coverage=False)
         vlib.tlc_must_pass(r, cfg)
         states += r.distinct
         trans += r.generated
-    for neg in ["Schedule_neg_leftbug.cfg", "Schedule_neg_norecheck.cfg", "Schedule_neg_unlearly.cfg"]:
+    for neg in ["Schedule_neg_leftbug.cfg", "Schedule_neg_norecheck.cfg", "Schedule_neg_unlearly.cfg", "Schedule_neg_ctorshift.cfg"]:
         vlib.tlc_must_fail(vlib.tlc("ScheduleMC", neg, deadlock=False, timeout=600), neg)
     # 2. M2: behaviours -> real code
     b = vlib.harness_build()
@@ -110,7 +110,7 @@ def run(tier, v):
         "replayed_behaviours": len(behs), "distinct_replayed_behaviours": distinct_beh,
         "replay_events_validated_states": tstates,
         "stress_runs": st["runs"], "stress_events": st["events"],
-        "negative_controls": ["leftbug", "norecheck", "unlearly"],
+        "negative_controls": ["leftbug", "norecheck", "unlearly", "ctorshift"],
         "design_configs": cfgs,
         "exhaustive": False,
     }
